@@ -664,3 +664,66 @@ Proof.
   - vm_compute. reflexivity.
   - vm_compute. reflexivity.
 Qed.
+
+(* ------------------------------------------------------------ the tag served with a definition *)
+
+(* all versions that ever existed, newest first *)
+Definition versions (f0 : file) (log : list event) : list file := map ev_new log ++ [f0].
+
+Lemma vs_versions : forall f0 log, vs f0 log = flat_map stamp_of (versions f0 log).
+Proof.
+  intros f0 log. unfold vs, versions. rewrite flat_map_app. cbn [flat_map].
+  rewrite app_nil_r. f_equal. induction log as [|ev log IH]; cbn [flat_map map]; congruence.
+Qed.
+
+Lemma nodup_stamps_content : forall (vl : list file) c1 c2 s,
+  NoDup (flat_map stamp_of vl) ->
+  In (Some (c1, s)) vl -> In (Some (c2, s)) vl -> c1 = c2.
+Proof.
+  induction vl as [|v vl IH]; intros c1 c2 s N H1 H2; [contradiction|].
+  cbn [flat_map] in N.
+  assert (Tail : forall c, In (Some (c, s)) vl -> In s (flat_map stamp_of vl)).
+  { intros c H. apply in_flat_map. exists (Some (c, s)). split; [exact H | left; reflexivity]. }
+  destruct H1 as [E1|H1], H2 as [E2|H2].
+  - congruence.
+  - subst v. cbn [stamp_of app] in N. inversion N as [|? ? Hn Hd]; subst.
+    exfalso. apply Hn. eapply Tail; eauto.
+  - subst v. cbn [stamp_of app] in N. inversion N as [|? ? Hn Hd]; subst.
+    exfalso. apply Hn. eapply Tail; eauto.
+  - apply (IH c1 c2 s); try assumption.
+    destruct v as [[c s']|]; cbn [stamp_of app] in N;
+      [inversion N as [|? ? Hn Hd]; subst|]; assumption.
+Qed.
+
+Lemma chain_cur_version : forall f0 log cur, chainN f0 log cur -> In cur (versions f0 log).
+Proof.
+  intros f0 log cur C. unfold versions. destruct log as [|ev log]; cbn [chainN] in C.
+  - subst. left. reflexivity.
+  - destruct C as [E _]. subst cur. left. reflexivity.
+Qed.
+
+(* What a reader gets (definition and tag from one open file) is a version
+   that was written, with the tag of that very version; and among all
+   versions that ever existed a tag belongs to one definition only.  So a tag
+   served with a definition identifies that definition. *)
+Theorem content_matches_tag : forall wr reqs f0 sched,
+  Fresh f0 sched ->
+  let w := run wr reqs f0 sched in
+  (forall c t, read_description (w_file w) = Some (c, t) ->
+     exists s, In (Some (c, s)) (versions f0 (w_log w)) /\ t = make_etag s) /\
+  (forall c1 s1 c2 s2,
+     In (Some (c1, s1)) (versions f0 (w_log w)) ->
+     In (Some (c2, s2)) (versions f0 (w_log w)) ->
+     make_etag s1 = make_etag s2 -> c1 = c2 /\ s1 = s2).
+Proof.
+  intros wr reqs f0 sched F w. subst w.
+  destruct (run_InvL wr reqs f0 sched) as [_ C _].
+  pose proof (run_InvN wr reqs f0 sched F) as N. unfold InvN in N.
+  cbn [map] in N. rewrite app_nil_r, vs_versions in N.
+  split.
+  - intros c t H. destruct (w_file (run wr reqs f0 sched)) as [[c' s]|] eqn:E; [|discriminate].
+    cbn [read_description] in H. inv H. exists s. split; [|reflexivity].
+    apply chain_cur_version. exact C.
+  - intros c1 s1 c2 s2 H1 H2 Et. apply make_etag_inj in Et. subst s2.
+    split; [|reflexivity]. eapply nodup_stamps_content; eauto.
+Qed.
